@@ -118,6 +118,12 @@ def _(self, node, expected_type):
     ensures(cardmany(result[0])
             or forall_in(result[0], lambda r: wf_ty(r)))
     ensures(implies(not card1(result[0]), leafcite(result[1])))
+    # an error raised for this mapping itself (not passed up from an
+    # attribute) cites the start of the mapping, whatever else it says (C17)
+    ensures(implies(not card1(result[0])
+                    and len(err_causes(result[1])) == 0,
+                    contains(err_msg(result[1]), markstr(node.smark))),
+            prop=('C17',))
     ensures(forall_in(result[0], lambda r: shape_ok(node, r)))
     ensures(result[0] == (tyset_of(expected_type)
                           if matches1(node, expected_type)
